@@ -34,7 +34,7 @@ extern "C" int LLVMFuzzerTestOneInput(const uint8_t* data, size_t size)
     RunResult r = runCase(P, 0);
     g_execs++;
     if (r.nontrivial) g_nontrivial++;
-    if ((g_execs & 1023) == 0) {
+    if ((g_execs & 15) == 0) {       // (libFuzzer leaves through _Exit: no atexit; a case is a whole program, tens per second)
         const char* out = getenv("MVH_FUZZ_OUT");
         std::string path = std::string(out ? out : ".") + "/fuzz-stats-" + std::to_string(getpid()) + ".txt";
         int fd = open(path.c_str(), O_WRONLY | O_CREAT | O_TRUNC, 0644);
